@@ -192,7 +192,17 @@ impl<'ctx> Ledger<'ctx> {
                 };
                 bal.add_amount(posting.account, delta.into_owned());
             }
-            bal.round(ctx);
+            // an up-to-date conversion rounds after converting; rounding the holdings to
+            // their own precision first would change the converted totals.
+            if !matches!(
+                query.conversion,
+                Some(Conversion {
+                    strategy: ConversionStrategy::UpToDate { .. },
+                    ..
+                })
+            ) {
+                bal.round(ctx);
+            }
             Cow::Owned(bal)
         };
         match query.conversion {
